@@ -13,12 +13,14 @@ def mem_case(line):
     tok = line.split()
     if tok[1] == "port":          # the serial channel task's life cycle: same arguments, driver suite `sport`
         return "sport " + " ".join(tok[2:])
+    if tok[1] == "rsrv":          # the RTU server task's open / retry life cycle: same arguments, driver suite `sserver`
+        return "sserver " + " ".join(tok[2:])
     return srv_mem_case(line) if tok[1] == "srv" else cli_mem_case(line)[0]
 
 
 def expected(line, mem_out):
     tok = line.split()
-    if tok[1] == "port":
+    if tok[1] in ("port", "rsrv"):
         return mem_out
     if tok[1] == "srv":
         return re.sub(r" end=\S+$", "", mem_out)
